@@ -196,6 +196,8 @@ ENGINES = {
     "hist": (["vf/engines/hist.cc", "vf/vfsched.cc", "vf/vfio.cc"], True, True, True, False),
     "crash": (["vf/engines/crash.cc", "vf/vfsched.cc", "vf/vfio.cc"], True, True, True, False),
     "codec": (["vf/engines/codec.cc"], False, False, True, True),
+    "fault": (["vf/engines/fault.cc", "vf/vfsched.cc", "vf/vfio.cc"], True, True, True, False),
+    "conc": (["vf/engines/conc.cc", "vf/vfsched.cc", "vf/vfio.cc"], True, True, True, False),
 }
 
 
